@@ -173,7 +173,8 @@ def run_lines(exe, lines, shards=16, timeout=None):
     chunks = [lines[i::n] for i in range(n)]
     procs = []
     for ch in chunks:
-        p = subprocess.Popen([exe], stdin=subprocess.PIPE, stdout=subprocess.PIPE, stderr=subprocess.PIPE, text=True)
+        argv = exe.split(" ") if " --" in exe else [exe]      # "path --logger": the harness with a logger installed
+        p = subprocess.Popen(argv, stdin=subprocess.PIPE, stdout=subprocess.PIPE, stderr=subprocess.PIPE, text=True)
         procs.append(p)
     import threading
     outs = [None] * n
@@ -224,6 +225,39 @@ def normalise_pair(impl, model):
     return impl, model
 
 
+_ARITY = {"And": 2, "Or": 2, "List": 2, "Not": 1, "Prec": 1, "DupAnd": 1, "DupOr": 1, "DupList": 1}
+
+
+def _subtree_end(toks, i):
+    t = toks[i]
+    if t in _ARITY:
+        j = i + 1
+        for _ in range(_ARITY[t]):
+            j = _subtree_end(toks, j)
+        return j
+    j = i + 2 if t in ("T", "A", "G", "P") else i + 1       # the word after a leaf head is its name (`A List`)
+    while j < len(toks) and toks[j] not in _ARITY and toks[j] not in ("T", "A", "G", "P"):
+        j += 1
+    return j
+
+
+def expand_dups(case):
+    """T/TC cases may contain DupAnd/DupOr/DupList t: for the implementation ONE subtree shared by both
+    operands (Rc clones); for the model, which has no notion of sharing, the operator applied to t and t"""
+    if "Dup" not in case or not (case.startswith("T ") or case.startswith("TC ")):
+        return case
+    toks = case.split(" ")
+    i = 0
+    while i < len(toks):
+        if toks[i] in ("DupAnd", "DupOr", "DupList"):
+            end = _subtree_end(toks, i + 1)
+            sub = toks[i + 1:end]
+            toks = toks[:i] + [toks[i][3:]] + sub + sub + toks[end:]
+        else:
+            i += 1
+    return " ".join(toks)
+
+
 def run_both(cases, harness_exe, driver_exe=None, shards=16):
     """cases: list of case lines. Returns list of (case, impl_line, model_line)."""
     driver_exe = driver_exe or os.path.join(OCAML, "driver")
@@ -231,7 +265,7 @@ def run_both(cases, harness_exe, driver_exe=None, shards=16):
     mcases = []
     for c, o in zip(cases, impl):
         m = CLOCK.search(o or "")
-        mcases.append(c + (" @" + m.group(1) if m else ""))
+        mcases.append(expand_dups(c) + (" @" + m.group(1) if m else ""))
     model = run_lines(driver_exe, mcases)
     return [(c,) + normalise_pair(i, m) for c, i, m in zip(cases, impl, model)]
 
